@@ -222,7 +222,11 @@ func childMain(args []string) {
 		return
 	}
 	if mode == "library" {
-		for i := 1; i <= libCycles && res.Cycle == ""; i++ {
+		cycles := libCycles
+		if v, err := strconv.Atoi(os.Getenv("C07_LIBCYCLES")); err == nil {
+			cycles = v
+		}
+		for i := 1; i <= cycles && res.Cycle == ""; i++ {
 			pre := stateOf(k.Ch)
 			func() {
 				defer func() {
